@@ -1,12 +1,17 @@
 """C17 — the grammar parses behaviours with C structure, deterministically.
 
 Theorems: lean/RzilVerif/Props/C17.lean (refParse_print for ALL expression trees: the reference
-precedence parser inverts the minimal-parenthesis printer; precedence/associativity lemmas) and
+precedence parser inverts the minimal-parenthesis printer; precedence/associativity lemmas),
+Props/C17Stmt.lean (refParseStmt_print for ALL statement trees — blocks, if/else, for, declarations,
+statement-expressions, mutually recursive with the expressions; else_binds_nearest / else_not_outer /
+else_through_for / braces_bind_outer / parse_print_open_then: the else binding stated outright) and
 Props/C17Shape.lean (kernel-decided facts about the REGENERATED grammar: tower levels/order/recursion
 side/operators, terminal spellings and priorities, the two `if` alternatives).
 Tie: translator (Gen/GrammarGen.lean through Lark's own loader) + correspondence with Lark: random token
 strings over the dialect (random parenthesisation and spacing) parsed by the real parser and by the Lean
-reference parser; token classification of operand atoms; statement nests; and the same texts parsed in fresh
+reference parser; token classification of operand atoms; random statement nests (blocks, if/else chains incl.
+dangling shapes, for loops, declarations, statement-expressions inside expressions, empty statements) parsed
+by both and compared after the tree-shape normalisations N1..N4 listed at `lark_stmt_to_sx`; and the same texts parsed in fresh
 processes under several PYTHONHASHSEED values through both parser construction sites.
 Partial: determinism across hash seeds is runtime behaviour of a third-party library; it is sampled.
 """
@@ -36,21 +41,95 @@ AMBIG = ["{ a = 1; { b = 1; } ; }", "{ a = b---c; }", "{ if (a) if (b) RdV = 1; 
          "{ RdV = (a)-b; }", "{ RdV = (int)-b; }", "{ RdV = a ? b : c ? d : e; }", "{ RdV = ({ int x = 1; x; }) + 1; }", "{ {} ; {} }"]
 
 
-def gen_tree(rng, depth):
+def gen_tree(rng, depth, sdepth=0):
+    """random expression; with sdepth > 0 (statement-level cases only: the draws of the expression-level cases are
+    unchanged) an operand may be a statement-expression `({ items e; })` whose items nest up to sdepth"""
+    if sdepth > 0 and rng.random() < 0.08:
+        return ("stmtexpr", [gen_stmt(rng, sdepth - 1, True) for _ in range(rng.randint(0, 2))], gen_tree(rng, min(depth, 1), sdepth - 1))
     if depth <= 0 or rng.random() < 0.2:
         return ("atom",) + rng.choice(ATOMS)
     k = rng.random()
     if k < 0.6:
-        return ("bin", rng.choice(BIN), gen_tree(rng, depth - 1), gen_tree(rng, depth - 1))
+        return ("bin", rng.choice(BIN), gen_tree(rng, depth - 1, sdepth), gen_tree(rng, depth - 1, sdepth))
     if k < 0.7:
-        return ("un", rng.choice(["-", "~", "!"]), gen_tree(rng, depth - 1))
+        return ("un", rng.choice(["-", "~", "!"]), gen_tree(rng, depth - 1, sdepth))
     if k < 0.78:
-        return ("cast", rng.choice(TYPES), gen_tree(rng, depth - 1))
+        return ("cast", rng.choice(TYPES), gen_tree(rng, depth - 1, sdepth))
     if k < 0.88:
-        return ("tern", gen_tree(rng, depth - 1), gen_tree(rng, depth - 1), gen_tree(rng, depth - 1))
+        return ("tern", gen_tree(rng, depth - 1, sdepth), gen_tree(rng, depth - 1, sdepth), gen_tree(rng, depth - 1, sdepth))
     if k < 0.94:
         return ("post", rng.choice(["++", "--"]), ("atom", "a", "identifier"))
-    return ("paren", gen_tree(rng, depth - 1))
+    return ("paren", gen_tree(rng, depth - 1, sdepth))
+
+
+ASSIGN = ["=", "=", "=", "+=", "-=", "<<=", "|=", "^="]       # no "&=": glued to its left operand it falls into the listed unary-& class
+LHS = ["RdV", "RxV", "RddV", "PdV", "a", "b", "tmp", "EA"]
+DNAMES = ["x", "y", "k", "tmp2", "w_"]
+
+
+def gen_sexpr(rng, sdepth, edepth=2):
+    """expression of a statement-level case: assignment, plain expression tree, or (rarely, directly) a statement-expression"""
+    k = rng.random()
+    if k < 0.45:
+        return ("assign", rng.choice(ASSIGN), ("atom", rng.choice(LHS)), gen_tree(rng, rng.randint(0, edepth), sdepth))
+    return gen_tree(rng, rng.randint(0, edepth), sdepth)
+
+
+def gen_stmt(rng, depth, in_block=False):
+    """random statement nest.  NO protective braces are inserted: `("if", c, ("if", c2, s, None), t)` is emitted as
+    `if (c) if (c2) s else t` — the dangling shapes occur on purpose, the reference parser decides the structure."""
+    k = rng.random()
+    if depth <= 0:
+        if in_block and k < 0.12:
+            return ("decl", rng.choice(TYPES), rng.choice(DNAMES), gen_sexpr(rng, 0, 1) if rng.random() < 0.6 else None)
+        if k < 0.19:                       # (an `if` whose body is the empty statement is the keyword-confusion shape: kept, but not frequent)
+            return ("empty",)
+        if k < 0.25:
+            return ("block", [])
+        if k < 0.30:
+            return ("jump", gen_tree(rng, 1))
+        return ("expr", gen_sexpr(rng, 0))
+    if k < 0.24:
+        return ("block", [gen_stmt(rng, depth - 1, True) for _ in range(rng.randint(0, 3))])
+    if k < 0.42:
+        return ("if", gen_sexpr(rng, depth - 1, 1), gen_stmt(rng, depth - 1), None)
+    if k < 0.62:
+        return ("if", gen_sexpr(rng, depth - 1, 1), gen_stmt(rng, depth - 1), gen_stmt(rng, depth - 1))
+    if k < 0.72:
+        return ("for", gen_sexpr(rng, 0, 1), gen_sexpr(rng, 0, 1), gen_sexpr(rng, 0, 1), gen_stmt(rng, depth - 1))
+    if k < 0.80 and in_block:
+        return ("decl", rng.choice(TYPES), rng.choice(DNAMES), gen_sexpr(rng, depth - 1, 1) if rng.random() < 0.6 else None)
+    if k < 0.83:
+        return ("empty",)
+    return ("expr", gen_sexpr(rng, depth - 1))
+
+
+def stoks(t, rng, out):
+    """token list of a statement nest (braces exactly where the generated nest has a block)"""
+    k = t[0]
+    if k == "expr":
+        toks(t[1], rng, out); out.append(("op", ";"))
+    elif k == "jump":
+        out.append(("atom", "JUMP")); out.append("lp"); toks(t[1], rng, out); out.append("rp"); out.append(("op", ";"))
+    elif k == "empty":
+        out.append(("op", ";"))
+    elif k == "block":
+        out.append(("op", "{"))
+        for it in t[1]:
+            stoks(it, rng, out)
+        out.append(("op", "}"))
+    elif k == "if":
+        out.append(("op", "if")); out.append("lp"); toks(t[1], rng, out); out.append("rp"); stoks(t[2], rng, out)
+        if t[3] is not None:
+            out.append(("op", "else")); stoks(t[3], rng, out)
+    elif k == "for":
+        out.append(("op", "for")); out.append("lp"); toks(t[1], rng, out); out.append(("op", ";")); toks(t[2], rng, out)
+        out.append(("op", ";")); toks(t[3], rng, out); out.append("rp"); stoks(t[4], rng, out)
+    elif k == "decl":
+        out.append(("ty", t[1])); out.append(("atom", t[2]))
+        if t[3] is not None:
+            out.append(("op", "=")); toks(t[3], rng, out)
+        out.append(("op", ";"))
 
 
 def toks(t, rng, out):
@@ -86,6 +165,13 @@ def toks(t, rng, out):
         toks(t[1], rng, out); out.append(("op", "?")); toks(t[2], rng, out); out.append(("op", ":")); toks(t[3], rng, out)
     elif k == "post":
         toks(t[2], rng, out); out.append(("op", t[1]))
+    elif k == "assign":
+        toks(t[2], rng, out); out.append(("op", t[1])); toks(t[3], rng, out)
+    elif k == "stmtexpr":
+        out.append("lp"); out.append(("op", "{"))
+        for it in t[1]:
+            stoks(it, rng, out)
+        toks(t[2], rng, out); out.append(("op", ";")); out.append(("op", "}")); out.append("rp")
 
 
 def text_of(tl, rng):
@@ -138,7 +224,237 @@ def lark_to_sx(t, classes):
         return ["assign", Q(str(ch[1])), lark_to_sx(ch[0], classes), lark_to_sx(ch[2], classes)]
     if d == "postfix_expr":
         return ["post", Q(str(ch[1])), lark_to_sx(ch[0], classes)]
+    if d == "sub_routine":
+        return ["call", Q(str(ch[0].children[0]))] + [lark_to_sx(c, classes) for c in ch[1:] if c is not None]
+    if d == "gcc_extended_expr":
+        # "(" "{" [block_item_list] expr ";" "}" ")" : children [items or None, value]; the parentheses leave no node
+        return ["stmtexpr", lark_items(ch[0], classes), lark_to_sx(ch[1], classes)]
     return ["other", Q(str(d))]
+
+
+def lark_items(t, classes):
+    """item list of a non-empty compound / statement-expression body.
+    N1 (tree-shape encoding): `?block_item_list` is left recursive and inlined when it has one child, so n items are
+    block_item_list(block_item_list(… block_item(i1) …, block_item(i2)) …, block_item(in)) and one item is just block_item(i1)."""
+    from lark import Tree
+
+    if t is None:
+        return []
+    if isinstance(t, Tree) and t.data == "block_item_list":
+        out = []
+        for c in t.children:
+            out += lark_items(c, classes)
+        return out
+    if isinstance(t, Tree) and t.data == "block_item" and len(t.children) == 1:
+        c = t.children[0]
+        if isinstance(c, Tree) and c.data == "declaration":
+            ty = Q(type_text(c.children[0]))
+            dn = c.children[1]
+            if isinstance(dn, Tree) and dn.data == "init_declarator":
+                return [["declinit", ty, Q(str(dn.children[0])), lark_to_sx(dn.children[1], classes)]]
+            return [["decl", ty, Q(str(dn))]]
+        return [lark_stmt_to_sx(c, classes)]
+    raise ValueError(f"unexpected item node {getattr(t, 'data', t)!r}")
+
+
+def lark_stmt_to_sx(t, classes):
+    """Lark tree in STATEMENT position -> the reference parser's statement tree.  Normalisations (each one is pure
+    tree-shape encoding: the node kinds below are what Lark's `?rule` inlining leaves of the derivation):
+    N1  nested/inlined block_item_list (see lark_items);
+    N2  a compound statement has no node of its own: in statement position `block_item(x)` IS `{ x }`, `block_item_list(…)` IS
+        `{ … }`, and the childless `compound_stmt` IS `{ }`; hence `{ { x; } }` = block_item(block_item(x)) = (block (block x));
+    N3  `?expr_stmt`: `e ;` is just the tree of e, the empty statement `;` is the childless node `expr_stmt`;
+    N4  (applied later, `join_jump`) JUMP(e) is a complete jump_stmt WITHOUT its semicolon, which then shows up as an empty
+        statement item right behind the statement that ends in the jump: `JUMP(e) ;` == expression statement `JUMP(e);`.
+    NOT normalised (counted, see `drop_semi`): the optional ";" of `"{" block_item_list "}" [";"]`."""
+    from lark import Tree, Token
+
+    if isinstance(t, Tree):
+        d, ch = t.data, t.children
+        if d in ("block_item", "block_item_list"):
+            return ["block"] + lark_items(t, classes)
+        if d == "compound_stmt" and not ch:
+            return ["block"]
+        if d == "expr_stmt" and not ch:
+            return ["empty"]
+        if d == "selection_stmt" and str(ch[0]) == "if":
+            if len(ch) == 3:
+                return ["if", lark_to_sx(ch[1], classes), lark_stmt_to_sx(ch[2], classes)]
+            if len(ch) == 5 and str(ch[3]) == "else":
+                return ["ifelse", lark_to_sx(ch[1], classes), lark_stmt_to_sx(ch[2], classes), lark_stmt_to_sx(ch[4], classes)]
+        if d == "iteration_stmt" and str(ch[0]) == "for" and len(ch) == 5:
+            return ["for", lark_to_sx(ch[1], classes), lark_to_sx(ch[2], classes), lark_to_sx(ch[3], classes), lark_stmt_to_sx(ch[4], classes)]
+        if d == "jump_stmt" and len(ch) == 1 and isinstance(ch[0], Tree) and ch[0].data == "jump" and len(ch[0].children) == 2:
+            return ["jump", lark_to_sx(ch[0].children[1], classes)]
+        if d in ("selection_stmt", "iteration_stmt", "jump_stmt", "declaration", "labeled_stmt", "mem_store", "cancel_slot_stmt"):
+            raise ValueError(f"unexpected statement node {d} with {len(ch)} children")
+    return ["expr", lark_to_sx(t, classes)]
+
+
+STMT_TAGS = ("block", "if", "ifelse", "for", "expr", "empty", "decl", "declinit", "jump", "stmtexpr")
+
+
+def _T(txt):
+    """tokens of a directed statement text written with single spaces between tokens"""
+    out = []
+    for w in txt.split():
+        out.append("lp" if w == "(" else "rp" if w == ")" else ("ty", w) if w in TYPES else
+                   ("atom", w) if (w[0].isalnum() or w[0] == "_") and w not in ("if", "else", "for") else ("op", w))
+    return out
+
+
+STMT_DIRECTED = [_T(x) for x in [
+    "{ if ( a ) if ( b ) RdV = 1 ; else RdV = 2 ; }",                       # dangling else (known finding)
+    "{ if ( a ) { if ( b ) RdV = 1 ; } else RdV = 2 ; }",
+    "{ if ( a ) { if ( b ) RdV = 1 ; else RdV = 2 ; } }",
+    "{ if ( a ) if ( b ) RdV = 1 ; else RdV = 2 ; else RdV = 3 ; }",          # two ifs, two elses: not ambiguous
+    "{ if ( a ) RdV = 1 ; else if ( b ) RdV = 2 ; else RdV = 3 ; }",          # else-if chain: not ambiguous
+    "{ if ( a ) for ( a = 0 ; a < 4 ; a ++ ) if ( b ) RdV = 1 ; else RdV = 2 ; }",   # dangling through a loop body
+    "{ if ( a ) RdV = 1 ; else if ( b ) if ( tmp ) RdV = 2 ; else RdV = 3 ; }",
+    "{ { RdV = 1 ; } }", "{ { { RdV = 1 ; } } }", "{ { } }", "{ { } { } }", "{ ; }", "{ ; ; }", "{ { ; } ; }",
+    "{ { RdV = 1 ; } ; }", "{ { RdV = 1 ; } ; ; }", "{ { } ; }", "{ if ( a ) { RdV = 1 ; } ; RdV = 2 ; }",
+    "{ if ( a ) { RdV = 1 ; } ; else RdV = 2 ; }",                           # not C: Lark accepts (optional ';' of the compound)
+    "{ for ( a = 0 ; a < 4 ; a ++ ) { RdV += a ; } }", "{ for ( a = 0 ; a < 4 ; a ++ ) ; }",
+    "{ int x ; int32_t y = 1 ; RdV = x + y ; }", "{ unsigned k = ( uint8_t ) RsV ; }",
+    "{ RdV = ( { int x = 1 ; x ; } ) + 1 ; }", "{ RdV = ( { a ; } ) ; }", "{ RdV = ( { { a ; } ; b ; } ) ; }",
+    "{ if ( ( { a ; } ) ) RdV = ( { if ( a ) b = 1 ; else b = 2 ; b ; } ) ; }",
+    "{ if ( a ) ; }", "{ if ( a ) ; else ; }", "{ if ( a ) - b ; }", "{ for ( a ; b ; tmp ) - b ; }",   # reserved words taken as identifiers
+    "{ JUMP ( a ) ; }", "{ if ( a ) JUMP ( b ) ; }", "{ if ( a ) JUMP ( b ) ; else RdV = 1 ; }", "{ if ( a ) { JUMP ( b ) ; } RdV = 1 ; }",
+]]
+
+
+def semi_accepts_non_c(tl):
+    """the token string has `} ; else`: in C the `;` ends the if statement and the else is an error; the real grammar takes
+    the `;` as part of the compound statement"""
+    return any(tl[i] == ("op", "}") and tl[i + 1] == ("op", ";") and tl[i + 2] == ("op", "else") for i in range(len(tl) - 2))
+
+
+KEYWORDS = ("if", "else", "for")
+
+
+def has_keyword_ident(x):
+    """Lark's tree uses a reserved word as an identifier: (call "if" …) / (atom "else") — no C tree has such a node"""
+    if not isinstance(x, list):
+        return False
+    if len(x) >= 2 and x[0] in ("call", "atom") and x[1] in KEYWORDS:
+        return True
+    return any(has_keyword_ident(y) for y in x)
+
+
+def if_call(x):
+    """what the keyword confusion does to the simplest shape: (if c (empty)) -> (expr (call "if" c)).  Applied to the REFERENCE
+    tree only to sub-classify counted cases."""
+    if not isinstance(x, list):
+        return x
+    x = [if_call(y) for y in x]
+    if len(x) == 3 and x[0] == "if" and x[2] == ["empty"]:
+        return ["expr", ["call", "if", x[1]]]
+    return x
+
+
+def spine_end(t):
+    """last statement on the right spine (if body / else branch / for body): what an immediately following token touches"""
+    while isinstance(t, list) and t and t[0] in ("if", "ifelse", "for"):
+        t = t[-1]
+    return t
+
+
+def map_items(x, f):
+    """apply f to every item list (block bodies, statement-expression bodies), bottom up"""
+    if not isinstance(x, list):
+        return x
+    x = [map_items(y, f) for y in x]
+    if x and x[0] == "block":
+        return ["block"] + f(x[1:])
+    if x and x[0] == "stmtexpr" and len(x) == 3 and isinstance(x[1], list):
+        return ["stmtexpr", f(x[1]), x[2]]
+    return x
+
+
+def _set_spine_end(t, new):
+    if isinstance(t, list) and t and t[0] in ("if", "ifelse", "for"):
+        return t[:-1] + [_set_spine_end(t[-1], new)]
+    return new
+
+
+def join_jump(x):
+    """N4: item ending in (jump e) followed by an (empty) item  ->  the item ending in (expr (call "JUMP" e))."""
+
+    def f(items):
+        out, i = [], 0
+        while i < len(items):
+            it = items[i]
+            e = spine_end(it)
+            if isinstance(e, list) and e and e[0] == "jump" and i + 1 < len(items) and items[i + 1] == ["empty"]:
+                out.append(_set_spine_end(it, ["expr", ["call", "JUMP", e[1]]]))
+                i += 2
+            else:
+                out.append(it)
+                i += 1
+        return out
+
+    return map_items(x, f)
+
+
+def drop_semi(x):
+    """what the real grammar's `"{" block_item_list "}" [";"]` does to a C tree: ONE empty statement directly behind an item
+    that ends in a non-empty block is not a statement of its own (it is swallowed by that block).  Applied to the REFERENCE
+    tree to attribute a difference to this class; never applied silently: such cases are counted."""
+
+    def f(items):
+        out, i = [], 0
+        while i < len(items):
+            it = items[i]
+            out.append(it)
+            e = spine_end(it)
+            if isinstance(e, list) and len(e) > 1 and e[0] == "block" and i + 1 < len(items) and items[i + 1] == ["empty"]:
+                i += 1
+            i += 1
+        return out
+
+    return map_items(x, f)
+
+
+def dangling(x):
+    """the reference (C) tree has an else-less `if` whose body's right spine reaches an `if … else`: the text is the known
+    ambiguous shape (that else could syntactically be given to the outer if).  Returns 0 = no, 1 = directly nested ifs,
+    2 = only through a for body."""
+    if not isinstance(x, list):
+        return 0
+    best = 0
+    if x and x[0] == "if":
+        t, via_for = x[2], False
+        while isinstance(t, list) and t and t[0] in ("if", "for", "ifelse"):
+            if t[0] == "ifelse":
+                best = 2 if via_for else 1
+                break
+            via_for = via_for or t[0] == "for"
+            t = t[-1]
+    for y in x:
+        d = dangling(y)
+        if d and (best == 0 or d < best):
+            best = d
+    return best
+
+
+def skel(x, out=None):
+    """rendering that forgets ONLY which if an else belongs to: blocks keep their braces, every other node is bracketed,
+    if/else are emitted as bare words.  skel(a) == skel(b)  <=>  a and b differ at most in else attachment."""
+    out = [] if out is None else out
+    if not isinstance(x, list):
+        out.append(str(x))
+    elif x and x[0] == "if":
+        out.append("if"); skel(x[1], out); skel(x[2], out)
+    elif x and x[0] == "ifelse":
+        out.append("if"); skel(x[1], out); skel(x[2], out); out.append("else"); skel(x[3], out)
+    elif x and x[0] == "for":
+        out.append("for"); skel(x[1], out); skel(x[2], out); skel(x[3], out); skel(x[4], out)
+    else:
+        out.append("[")
+        for y in x:
+            skel(y, out)
+        out.append("]")
+    return out
 
 
 def type_text(t):
@@ -216,7 +532,7 @@ print(json.dumps(out))
 
 def run(tier: str, replay=None) -> int:
     res = Result(PROP, tier)
-    st = prepare(PROP, translate=translate.run_all, extra_modules=["RzilVerif.Props.C17Shape"])
+    st = prepare(PROP, translate=translate.run_all, extra_modules=["RzilVerif.Props.C17Stmt", "RzilVerif.Props.C17Shape"])
     res.proof = st
     use_repo()
     rng = random.Random(seed() * 2027 + 17)
@@ -243,10 +559,28 @@ def run(tier: str, replay=None) -> int:
         toks(gen_tree(rng, rng.randint(1, 5 if tier == "quick" else 6)), rng, tl)
         cases.append(tl)
     texts = [text_of(tl, rng) for tl in cases]
+    # statement level: random nests (own generator state: the expression-level draws above are unchanged)
+    rng_s = random.Random(seed() * 7919 + 171)
+    scases = [[tuple(t) if isinstance(t, list) else t for t in tl] for tl in STMT_DIRECTED]
+    n_sdirected = len(scases)
+    ns = 500 if tier == "quick" else 5000
+    smax = 4 if tier == "quick" else 6
+    while len(scases) < n_sdirected + ns:
+        d = rng_s.randint(1, smax)
+        nest = ("block", [gen_stmt(rng_s, d - 1, True) for _ in range(rng_s.randint(1, 3))])
+        tl = []
+        stoks(nest, rng_s, tl)
+        if len(tl) <= (110 if tier == "quick" else 160):
+            scases.append(tl)
+    stexts = [text_of(tl, rng_s) for tl in scases]
     if replay:
         rp = json.load(open(replay))
         if "expr" in rp:
             texts, cases = [rp["expr"]], [None]
+            scases, stexts = [], []
+        elif "stmt_text" in rp:
+            texts, cases = [], []
+            stexts, scases = [rp["stmt_text"]], [[tuple(t) if isinstance(t, list) else t for t in rp["stmt_tokens"]]]
     srcs = ["{ " + t + "; }" for t in texts]
     parsed = rc.parse_programs(srcs)
     drv = Driver()
@@ -256,6 +590,8 @@ def run(tier: str, replay=None) -> int:
 
     reqs = [sx(["refparse"] + [tok_sx(t) for t in tl]) for tl in cases if tl is not None]
     reps = drv.run(reqs) if reqs else []
+    sparsed = rc.parse_programs(stexts) if stexts else []
+    sreps = drv.run([sx(["refparse-stmt"] + [tok_sx(t) for t in tl]) for tl in scases]) if scases else []
     viol = []
     evals, agree, rejected_both, amp_known = 0, 0, 0, 0
     want_class = dict(ATOMS)
@@ -292,6 +628,101 @@ def run(tier: str, replay=None) -> int:
             viol.append({"what": "Lark's tree differs from the C-structured tree of the reference parser", "expr": txt, "lark_tree": got, "reference_tree": ref})
         else:
             agree += 1
+    # statement level: Lark's tree of each nest against the Lean reference statement parser (theorem refParseStmt_print)
+    sc = {"evaluated": 0, "agree": 0, "rejected_by_both": 0, "dangling_else_known": 0, "dangling_else_known_through_for": 0,
+          "dangling_shape_but_trees_agree": 0, "optional_semicolon_after_block": 0, "optional_semicolon_accepts_non_C": 0,
+          "unary_amp_class": 0, "jump_semicolon_joined": 0, "with_stmt_expr": 0, "with_decl": 0, "with_for": 0, "with_else": 0,
+          "max_brace_depth": 0}
+    dangling_known = any(k["id"] == "C17-dangling-else-outer" for k in known_for(PROP))
+    amp_known_listed = any(k["id"] == "C17-ptr-regex-swallows-neighbours" for k in known_for(PROP))
+    semi_witness = kw_witness = None
+    sc.update({"keyword_as_identifier": 0, "keyword_as_identifier_explained_by_if_call": 0})
+    for txt, tl, pr, rep in zip(stexts, scases, sparsed, sreps):
+        sc["evaluated"] += 1
+        ref = sx_norm(parse_sx(rep))
+        pay = {"stmt_text": txt, "stmt_tokens": [list(t) if isinstance(t, tuple) else t for t in tl]}
+        words = [t[1] if isinstance(t, tuple) else t for t in tl]
+        depth_ = cur = 0
+        for w in words:
+            cur += 1 if w == "{" else -1 if w == "}" else 0
+            depth_ = max(depth_, cur)
+        sc["max_brace_depth"] = max(sc["max_brace_depth"], depth_)
+        sc["with_else"] += "else" in words
+        sc["with_for"] += "for" in words
+        sc["with_decl"] += any(isinstance(t, tuple) and t[0] == "ty" and i > 0 and tl[i - 1] != "lp" for i, t in enumerate(tl))
+        sc["with_stmt_expr"] += any(tl[i] == "lp" and tl[i + 1] == ("op", "{") for i in range(len(tl) - 1))
+        if pr[0] != "ok":
+            if ref == "none":
+                sc["rejected_by_both"] += 1
+            else:
+                viol.append(dict(pay, what=f"Lark rejects ({pr[1]}) a statement nest the reference parser accepts", reference_tree=ref))
+            continue
+        try:
+            kids = pr[1].children                      # fbody : stmt*  — the behaviour is ONE compound statement
+            if len(kids) != 1:
+                raise ValueError(f"fbody with {len(kids)} statements")
+            classes = []
+            raw = sx_norm(lark_stmt_to_sx(kids[0], classes))
+            got = join_jump(raw)
+            sc["jump_semicolon_joined"] += got != raw
+        except Exception as ex:
+            viol.append(dict(pay, what=f"unexpected statement tree shape: {ex}", reference_tree=ref))
+            continue
+        for a, c in classes:
+            if a in want_class and want_class[a] != c:
+                viol.append(dict(pay, what=f"token {a} classified as {c}, expected {want_class[a]}"))
+        if ref == "none":
+            # the reference parser (C's rules) rejects the text, Lark accepts it
+            if semi_accepts_non_c(tl):
+                sc["optional_semicolon_accepts_non_C"] += 1
+                if semi_witness is None or len(txt) < len(semi_witness):
+                    semi_witness = txt
+            else:
+                viol.append(dict(pay, what="Lark accepts a statement nest the reference parser (C's rules) rejects", lark_tree=got))
+            continue
+        if len(samples) < 5:
+            samples.append({"stmt": txt, "tree": got})
+        dg = dangling(ref)
+        kw = has_keyword_ident(got)
+        if got == ref:
+            sc["agree"] += 1
+            sc["dangling_shape_but_trees_agree"] += dg != 0
+        elif got == drop_semi(ref):
+            sc["optional_semicolon_after_block"] += 1
+            if semi_witness is None or len(txt) < len(semi_witness):
+                semi_witness = txt
+        elif kw:
+            # candidate finding: a reserved word was taken as an identifier (`if (c) ;` -> call of "if", `else ;` -> identifier)
+            sc["keyword_as_identifier"] += 1
+            sc["keyword_as_identifier_explained_by_if_call"] += got in (if_call(ref), drop_semi(if_call(ref)))
+            if kw_witness is None or len(txt) < len(kw_witness):
+                kw_witness = txt
+        elif has_amp_unary(got) and amp_known_listed:
+            sc["unary_amp_class"] += 1
+        elif dg and dangling_known and skel(drop_semi(got)) == skel(drop_semi(ref)):
+            # the listed finding: same token string, the trees differ ONLY in which if an else belongs to
+            sc["dangling_else_known"] += 1
+            sc["dangling_else_known_through_for"] += dg == 2
+        else:
+            viol.append(dict(pay, what="Lark's statement tree differs from the C-structured tree of the reference statement parser"
+                                       + (" (beyond else attachment)" if dg else ""), lark_tree=got, reference_tree=ref))
+    # deviations of the real grammar from C structure other than the listed dangling else.  They are counted (never hidden by a
+    # normalisation); once the main session lists them in known_findings.json under these ids they are printed as KNOWN-FINDING.
+    for cid, wit, n_, what in (
+        ("C17-compound-optional-semicolon", semi_witness, sc["optional_semicolon_after_block"] + sc["optional_semicolon_accepts_non_C"],
+         "a non-empty compound statement swallows a following ';' (grammar: \"{\" block_item_list \"}\" [\";\"]): the empty statement of `{ x; } ;` "
+         "is missing from the tree, and the non-C text `if (a) { x; } ; else y;` is accepted"),
+        ("C17-keyword-as-identifier", kw_witness, sc["keyword_as_identifier"],
+         "reserved words are not reserved (IDENTIFIER matches if/else/for): `if (c) ;` parses as the expression statement calling a sub-routine "
+         "`if`, `if (c) -x;` as the subtraction `if(c) - x`, `else ;` as the identifier `else`"),
+    ):
+        if wit is None:
+            continue
+        k = [k for k in known_for(PROP) if k["id"] == cid]
+        if k:
+            res.known(f"{k[0]['id']}: {k[0]['what']} [witness: {k[0].get('witness', wit)}] ({k[0].get('site', 'Resources/Hexagon/grammar.lark')})")
+        else:
+            res.notes.append(f"candidate finding {cid} (not listed, reported for triage): {what}; {n_} nests; e.g. {wit}")
     # statement-level structure: else binds to the nearest if; nesting; statement-expressions
     stmt_cases = {
         "{ if (a) { if (b) RdV = 1; else RdV = 2; } }": "inner",
@@ -334,7 +765,7 @@ def run(tier: str, replay=None) -> int:
     # determinism across processes / hash seeds / parser construction sites
     beh = rc.load_behaviours()
     dn = rc.sample_names(beh, seed(), per_group=1, per_feature=0)[: (12 if tier == "quick" else 80)]
-    dtexts = AMBIG + [beh[n_][0] for n_ in dn if len(beh[n_][0]) < 400] + srcs[:20] + [t for pr_ in CONFUSABLE for t in pr_]
+    dtexts = AMBIG + [beh[n_][0] for n_ in dn if len(beh[n_][0]) < 400] + srcs[:20] + [t for pr_ in CONFUSABLE for t in pr_] + stexts[:24]
     dtexts = list(dict.fromkeys(dtexts))
     seeds = [0, 1, 2, 3] if tier == "quick" else list(range(16))
     procs = []
@@ -368,8 +799,9 @@ def run(tier: str, replay=None) -> int:
         for v in viol[:3]:
             res.violation(v)
     res.coverage.update({
-        "evaluations": evals + len(dtexts) * len(seeds), "distinct_nontrivial": len(set(texts)),
-        "rule": "all 256 ordered pairs of binary operators without parentheses (exhaustive) + random expression token strings (depth <= 5/6, random parenthesisation and spacing, all operand token classes, casts, unary, ?:, postfix) parsed by Lark and by the Lean reference parser; statement nests; texts re-parsed in fresh processes per PYTHONHASHSEED through both parser construction sites. distinct = distinct expression texts",
+        "evaluations": evals + sc["evaluated"] + len(dtexts) * len(seeds), "distinct_nontrivial": len(set(texts)) + len(set(stexts)),
+        "rule": "all 256 ordered pairs of binary operators without parentheses (exhaustive) + random expression token strings (depth <= 5/6, random parenthesisation and spacing, all operand token classes, casts, unary, ?:, postfix) parsed by Lark and by the Lean reference parser; random statement nests (brace depth <= 4/6: blocks, if/else chains incl. dangling shapes, for, declarations, statement-expressions inside expressions, empty statements, JUMP) parsed by Lark and by the Lean reference statement parser, compared after the tree-shape normalisations N1..N4; texts re-parsed in fresh processes per PYTHONHASHSEED through both parser construction sites. distinct = distinct expression texts + distinct statement texts",
+        "statement_nests": sc,
         "agree": agree, "unary_amp_class_occurrences": amp_known, "rejected_by_both": rejected_both, "hash_seeds": seeds, "determinism_texts": len(dtexts), "confusable_pairs_both_orders": len(conf), "violations_total": len(viol), "samples": samples,
     })
     res.assumptions.append("Earley ambiguity resolution inside lark is sampled over hash seeds, not proved")
